@@ -33,12 +33,14 @@ def _write_cex(prop, obligation, harness, hexbytes, how, assertion, verifier_out
     return path
 
 
-def search_units(units, iters, seed):
-    """native random search over all harnesses mapped to the given units; returns first hit or None"""
+def search_units(units, iters, seed, prop=None):
+    """native random search over the harnesses mapped to the given units (and applicable to the property);
+    returns first hit or None.  Harnesses that carry a recorded known finding are skipped."""
     from contracts import registry as REG
+    known = set(k.get('obligation') for k in load_known() if k.get('status') == 'known')
     hs = []
     for h, info in REG.HARNESSES.items():
-        if set(info['units']) & set(units):
+        if set(info['units']) & set(units) and (prop is None or prop in info['props']) and ('harness::' + h) not in known:
             hs.append(h)
     tried = []
     for h in hs:
@@ -133,7 +135,7 @@ def run(prop, tier, seed, results, violations, undecided, infra):
     if (need or infra) and b[0]:
         bad_units = sorted(set(o.get('unit') for o in need if o.get('unit')) | set(
             n for n in units if results.get(n) is not None and results[n].get('infra')))
-        hit, tried = search_units(bad_units, 3000000, seed + 3)
+        hit, tried = search_units(bad_units, 1000000, seed + 3, prop)
         extra['bounded'].append({'engine': 'native random search for a counterexample to failing obligations',
                                  'units': bad_units, 'tried': tried})
         if hit and hit.get('status') == 'found':
